@@ -614,6 +614,411 @@ def gen_map(lines):
 
 
 GENERATORS.append(("Map", gen_map))
+# ------------------------------------------------------------------ de.rs float tables (C08)
+def rust_cond_to_lean(expr, names):
+    """translate a small Rust boolean expression over naturals (identifiers in `names`, integer
+    literals, / % comparisons && || parentheses) into a Lean `Bool` term; None if anything else occurs"""
+    toks = re.findall(r"\$?[A-Za-z_][A-Za-z_0-9]*|\d+|>=|<=|==|!=|&&|\|\||[()<>/%*+-]", expr)
+    if "".join(toks) != re.sub(r"\s+", "", expr): return None
+    out = []
+    for t in toks:
+        if t in names: out.append(names[t])
+        elif t.isdigit(): out.append(t)
+        elif t in ("/", "%", "(", ")", "*", "+"): out.append(t)
+        elif t in (">=", "<=", "<", ">", "==", "!="):
+            out.append({">=": "≥", "<=": "≤", "==": "=", "!=": "≠"}.get(t, t))
+        elif t in ("&&", "||"): out.append(t)
+        else: return None
+    # every comparison becomes `decide (…)`: split on && / || / parens at top level is not needed for
+    # this shape — wrap each maximal comparison chunk
+    s = " ".join(out)
+    parts = re.split(r"(\&\&|\|\||\(|\))", s)
+    res = []
+    for p in parts:
+        q = p.strip()
+        if q in ("&&", "||", "(", ")", ""): res.append(q)
+        else: res.append("decide (%s)" % q)
+    return " ".join(x for x in res if x)
+
+
+def gen_pow10(lines):
+    t = src("de.rs")
+    # --- POW10: literals as written, each must have the form 1e<index>
+    m = re.search(r'#\[cfg\(not\(feature\s*=\s*"float_roundtrip"\)\)\]\s*static\s+POW10\s*:\s*\[\s*f64\s*;\s*(\d+)\s*\]\s*=\s*\[(.*?)\];', t, re.S)
+    exps, declared = [], 0
+    if not m:
+        miss("pow10.table", "static POW10: [f64; N] = […] (non-float_roundtrip) not found")
+    else:
+        declared = int(m.group(1))
+        body = re.sub(r"//[^\n]*", "", m.group(2))
+        for lit in [x.strip() for x in body.split(",") if x.strip()]:
+            mm = re.fullmatch(r"1e(\d+)", lit)
+            if not mm:
+                miss("pow10.table.entry", "POW10 entry %r is not of the form 1e<digits>" % lit); exps.append(0)
+            else:
+                exps.append(int(mm.group(1)))
+    lines.append("/-- `POW10` of de.rs (non-float_roundtrip): entry `i` is the literal `1e<pow10Exps[i]>`, as written -/")
+    lines.append("def pow10Exps : List Nat := [%s]" % ", ".join(str(e) for e in exps))
+    lines.append("/-- the declared array length `[f64; N]` -/")
+    lines.append("def pow10Declared : Nat := %d" % declared)
+    # --- f64_from_parts constants
+    body = fn_body(t, r'#\[cfg\(not\(feature\s*=\s*"float_roundtrip"\)\)\]\s*fn f64_from_parts\b[^{]*\{')
+    big, step = 0, 0
+    if body is None:
+        miss("pow10.from_parts", "non-roundtrip f64_from_parts not found")
+    else:
+        mm = re.search(r"f\s*/=\s*1e(\d+)\s*;\s*exponent\s*\+=\s*(\d+)\s*;", body)
+        if not mm: miss("pow10.from_parts.step", "`f /= 1e<N>; exponent += <M>;` not found")
+        else: big, step = int(mm.group(1)), int(mm.group(2))
+        if not re.search(r"POW10\.get\(\s*exponent\.wrapping_abs\(\)\s+as\s+usize\s*\)", body):
+            miss("pow10.from_parts.index", "`POW10.get(exponent.wrapping_abs() as usize)` not found in f64_from_parts")
+    lines.append("/-- `f /= 1e<fromPartsBigExp>; exponent += <fromPartsStep>;` in f64_from_parts -/")
+    lines.append("def fromPartsBigExp : Nat := %d" % big)
+    lines.append("def fromPartsStep : Nat := %d" % step)
+    # --- overflow! macro body, translated token by token
+    mm = re.search(r"macro_rules!\s*overflow\s*\{\s*\(\$a:ident\s*\*\s*10\s*\+\s*\$b:ident\s*,\s*\$c:expr\)\s*=>\s*\{\s*match\s+\$c\s*\{\s*c\s*=>\s*(.*?),\s*\}\s*\}\s*;\s*\}", t, re.S)
+    term = None
+    if mm:
+        term = rust_cond_to_lean(mm.group(1).strip(), {"$a": "a", "$b": "b", "c": "c"})
+    if term is None:
+        miss("pow10.overflow_macro", "overflow!($a * 10 + $b, $c) body not found or not translatable")
+        term = "false"
+    lines.append("/-- `overflow!($a * 10 + $b, $c)`: the macro body `%s`, translated token by token -/" % (mm.group(1).strip() if mm else "?"))
+    lines.append("def overflowMacro (a b c : Nat) : Bool := %s" % term)
+    # the two call-site bounds
+    sites = re.findall(r"overflow!\(\s*(\w+)\s*\*\s*10\s*\+\s*digit\s*,\s*(\w+)::MAX\s*\)", t)
+    want = {("significand", "u64"), ("exp", "i32")}
+    if set(sites) != want:
+        miss("pow10.overflow_sites", "overflow! call sites are %r, expected significand/u64::MAX and exp/i32::MAX" % (sorted(set(sites)),))
+
+
+GENERATORS.append(("Pow10", gen_pow10))
+
+
+# ------------------------------------------------------------------ value/ser.rs + ser.rs key serializers (C15)
+def gen_tovalue(lines):
+    """C15: the dispatch tables of the two `MapKeySerializer`s (for every `serde::Serializer` method: does
+    it reject with `key_must_be_a_string()`, forward to `self`, or accept), the two bool key literals of
+    `value::ser::MapKeySerializer::serialize_bool`, the error codes the three error helpers of
+    `value/ser.rs` raise and the shape of the 128-bit branches of `value::Serializer`"""
+    tv = strip_rust_comments(src("value/ser.rs"))
+    tt = strip_rust_comments(src("ser.rs"))
+
+    def table(text, header, key):
+        block = fn_body(text, header)
+        if block is None:
+            miss(key, "impl block not found"); return []
+        rows = []
+        for m in re.finditer(r"fn\s+(serialize_\w+|collect_str)\s*(?:<[^>]*>)?\s*\(", block):
+            body = fn_body(block[m.start():], r"fn\s+\w+[^{]*\{")
+            if body is None:
+                miss(key + "." + m.group(1), "no body"); continue
+            inner = body.strip()[1:-1].strip()
+            if re.fullmatch(r"Err\(key_must_be_a_string\(\)\)", inner): cls = "reject"
+            elif re.fullmatch(r"value\.serialize\(self\)", inner): cls = "forward"
+            elif "float_key_must_be_finite()" in inner: cls = "finite"
+            else: cls = "accept"
+            rows.append((m.group(1), cls))
+        return rows
+
+    rows_v = table(tv, r"impl\s+serde::Serializer\s+for\s+MapKeySerializer\s*\{", "tovalue.keys.value")
+    rows_t = table(tt, r"impl<'a,\s*W,\s*F>\s*ser::Serializer\s+for\s+MapKeySerializer<'a,\s*W,\s*F>\s*where[^{]*\{", "tovalue.keys.text")
+    METHODS = ["serialize_bool", "serialize_i8", "serialize_i16", "serialize_i32", "serialize_i64", "serialize_i128",
+               "serialize_u8", "serialize_u16", "serialize_u32", "serialize_u64", "serialize_u128", "serialize_f32",
+               "serialize_f64", "serialize_char", "serialize_str", "serialize_bytes", "serialize_none", "serialize_some",
+               "serialize_unit", "serialize_unit_struct", "serialize_unit_variant", "serialize_newtype_struct",
+               "serialize_newtype_variant", "serialize_seq", "serialize_tuple", "serialize_tuple_struct",
+               "serialize_tuple_variant", "serialize_map", "serialize_struct", "serialize_struct_variant", "collect_str"]
+    lines.append("/-- the methods of `serde::Serializer` -/")
+    lines.append("inductive KeyMethod where\n" + "\n".join("  | %s" % m for m in METHODS) + "\nderiving DecidableEq, Repr")
+    lines.append("/-- what a `MapKeySerializer` method does: `Err(key_must_be_a_string())`, `value.serialize(self)`, a finiteness")
+    lines.append("    test raising `float_key_must_be_finite()`, or anything else (the key is accepted and rendered) -/")
+    lines.append("inductive KeyClass where\n  | reject | forward | finite | accept\nderiving DecidableEq, Repr")
+    for name, rows, doc, key in (("keyClassValue", rows_v, "`impl serde::Serializer for MapKeySerializer` of `src/value/ser.rs`", "tovalue.keys.value"),
+                                 ("keyClassText", rows_t, "`impl ser::Serializer for MapKeySerializer<W, F>` of `src/ser.rs`", "tovalue.keys.text")):
+        d = dict(rows)
+        for m in METHODS:
+            if m not in d: miss(key + "." + m, "method not defined in the impl block (serde default would apply)")
+        for m in d:
+            if m not in METHODS: miss(key + "." + m, "unknown Serializer method")
+        lines.append("/-- %s, method by method -/" % doc)
+        lines.append("def %s : KeyMethod → KeyClass\n" % name + "\n".join("  | .%s => .%s" % (m, d.get(m, "reject")) for m in METHODS))
+    # bool key literals of the value-side key serializer
+    block = fn_body(tv, r"impl\s+serde::Serializer\s+for\s+MapKeySerializer\s*\{") or ""
+    body = fn_body(block, r"fn\s+serialize_bool\s*\([^{]*\{") or ""
+    m = re.search(r'if\s+value\s*\{\s*"((?:[^"\\]|\\.)*)"\s*\}\s*else\s*\{\s*"((?:[^"\\]|\\.)*)"\s*\}', body)
+    if not m: miss("tovalue.keys.bool", '`if value { "true" } else { "false" }` not found')
+    lines.append("/-- `value::ser::MapKeySerializer::serialize_bool(true)` -/")
+    lines.append("def tvKeyTrue : List UInt8 := %s" % lean_bytes(rust_str_bytes(m.group(1)) if m else b""))
+    lines.append("/-- `value::ser::MapKeySerializer::serialize_bool(false)` -/")
+    lines.append("def tvKeyFalse : List UInt8 := %s" % lean_bytes(rust_str_bytes(m.group(2)) if m else b""))
+    # error helpers
+    for fn, name in (("key_must_be_a_string", "tvKeyErr"), ("float_key_must_be_finite", "tvFloatKeyErr")):
+        b = fn_body(tv, r"fn\s+%s\s*\(\)\s*->\s*Error\s*\{" % fn) or ""
+        m = re.search(r"Error::syntax\(ErrorCode::(\w+),\s*0,\s*0\)", b)
+        if not m: miss("tovalue.err." + fn, "`Error::syntax(ErrorCode::…, 0, 0)` not found")
+        lines.append("/-- the `ErrorCode` raised by `%s()` in `src/value/ser.rs` -/" % fn)
+        lines.append('def %s : String := "%s"' % (name, m.group(1) if m else ""))
+    # 128-bit branches of value::Serializer (default build): the order of the try_from tests and the error
+    ser = fn_body(tv, r"impl\s+serde::Serializer\s+for\s+Serializer\s*\{") or ""
+    for fn, name, want in (("serialize_i128", "tvI128Tests", ["u64", "i64"]), ("serialize_u128", "tvU128Tests", ["u64"])):
+        b = fn_body(ser, r"fn\s+%s\s*\([^{]*\{" % fn) or ""
+        tests = re.findall(r"if\s+let\s+Ok\(value\)\s*=\s*(\w+)::try_from\(value\)", b)
+        err = re.search(r"else\s*\{\s*Err\(Error::syntax\(ErrorCode::(\w+),\s*0,\s*0\)\)\s*\}", b)
+        if tests != want or not err: miss("tovalue.int128." + fn, "expected try_from tests %r followed by an Err" % (want,))
+        lines.append("/-- `value::Serializer::%s` without arbitrary_precision: the `try_from` targets tried in order, and the error -/" % fn)
+        lines.append("def %s : List String × String := ([%s], \"%s\")" % (name, ", ".join('"%s"' % x for x in tests), err.group(1) if err else ""))
+
+
+GENERATORS.append(("ToValue", gen_tovalue))
+
+# ------------------------------------------------------------------ value/de.rs routing (C16)
+def gen_fromvalue(lines):
+    """the routing of `impl Deserializer for Value` / `for &'de Value`, the variant accesses, the enum entry
+    points of Map / &Map and MapKeyDeserializer: per method either the method it delegates to, or the
+    `Value::K => callee` arms of its match (in source order, `_`/binding arms as `_`), or the macro that
+    defines it; plus the forward_to_deserialize_any lists and the numeric-key guard.  The transcription
+    in SJ/Model/FromValue.lean was written against exactly this table (`Model.FromValue.expectedRouting`)."""
+    t = strip_rust_comments(src("value/de.rs"))
+
+    def methods(block, key):
+        out = []
+        if block is None:
+            miss(key, "impl block not found"); return out
+        inner = block[1:-1]
+        # macro-defined methods
+        for m in re.finditer(r"\b(deserialize_number|deserialize_value_ref_number|deserialize_numeric_key)!\(\s*(\w+)\s*(?:,\s*(\w+)\s*)?\)\s*;", inner):
+            out.append((m.start(), m.group(2), "!" + m.group(1) + ("(" + m.group(3) + ")" if m.group(3) else "")))
+        for m in re.finditer(r"\bfn\s+(\w+)\s*(?:<[^{;]*?>)?\s*\(", inner):
+            name = m.group(1)
+            body = fn_body(inner[m.start():], r"fn\s+%s\b[^{]*\{" % name)
+            if body is None: continue
+            flat = re.sub(r"\s+", " ", body)
+            d = re.fullmatch(r"\{ self\.(\w+)\(visitor\) \}", flat)
+            if d:
+                out.append((m.start(), name, "->" + d.group(1))); continue
+            if re.search(r"\bmatch\b", flat):
+                arms = []
+                for a in re.finditer(r"(?:Some\()?(Value::(\w+)|\b_\b|\bother\b|\bNone\b|Some\(value\)|Some\(other\))(?:\([^)]*\))?\)?\s*=>\s*\{?\s*(?:if\s+[\w.()]+\s*\{\s*)?(?:return\s+)?(Err|Ok|[\w.:]+?)\(", flat):
+                    pat = a.group(2) or {"_": "_", "other": "_", "None": "None", "Some(value)": "Some", "Some(other)": "_"}[a.group(1)]
+                    if a.group(0).startswith("Some(Value::"): pat = "Some" + pat
+                    arms.append(pat + "=>" + a.group(3))
+                for e in re.finditer(r"\}\s*else\s*\{\s*([\w.:]+)\(", flat): arms.append("else=>" + e.group(1))
+                if re.search(r"if iter\.next\(\)\.is_some\(\) \{ return Err\(", flat): arms.append("second=>Err")
+                out.append((m.start(), name, ";".join(arms))); continue
+            last = [x.strip() for x in flat.strip("{} ").split(";") if x.strip()]
+            out.append((m.start(), name, last[-1] if last else ""))
+        out.sort()
+        return [(n, v) for _, n, v in out]
+
+    def forwards(block):
+        m = re.search(r"forward_to_deserialize_any!\s*\{([^}]*)\}", block or "")
+        return " ".join(m.group(1).split()) if m else ""
+
+    blocks = [
+        ("routeOwned", r"impl<'de>\s+serde::Deserializer<'de>\s+for\s+Value\s*\{"),
+        ("routeRef", r"impl<'de>\s+serde::Deserializer<'de>\s+for\s+&'de\s+Value\s*\{"),
+        ("routeMapOwned", r"impl<'de>\s+serde::Deserializer<'de>\s+for\s+Map<String,\s*Value>\s*\{"),
+        ("routeMapRef", r"impl<'de>\s+serde::Deserializer<'de>\s+for\s+&'de\s+Map<String,\s*Value>\s*\{"),
+        ("routeVariantOwned", r"impl<'de>\s+VariantAccess<'de>\s+for\s+VariantDeserializer\s*\{"),
+        ("routeVariantRef", r"impl<'de>\s+VariantAccess<'de>\s+for\s+VariantRefDeserializer<'de>\s*\{"),
+        ("routeMapKey", r"impl<'de>\s+serde::Deserializer<'de>\s+for\s+MapKeyDeserializer<'de>\s*\{"),
+    ]
+    for name, hdr in blocks:
+        block = fn_body(t, hdr)
+        ms = methods(block, "fromvalue." + name)
+        if block is not None and not ms: miss("fromvalue." + name, "no methods recognised")
+        lines.append("/-- methods of `%s`, in source order: (method, route) -/" % hdr.replace("\\s+", " ").replace("\\s*", "").replace("\\", ""))
+        lines.append("def %s : List (String × String) := [%s]" % (name, ", ".join('("%s", "%s")' % (n, v.replace('"', "'")) for n, v in ms)))
+        lines.append("def %sForward : String := \"%s\"" % (name, forwards(block)))
+    # visit_array / visit_array_ref: the leftover check
+    for fn, nm in (("visit_array", "visitArrayCheck"), ("visit_array_ref", "visitArrayRefCheck")):
+        body = fn_body(t, r"fn %s<'de, V>\([^{]*\{" % fn)
+        flat = re.sub(r"\s+", " ", body or "")
+        m = re.search(r"let remaining = deserializer\.iter\.len\(\); if (remaining == 0) \{ Ok\(seq\) \} else \{ Err\(", flat)
+        if not m: miss("fromvalue." + fn, "`let remaining = deserializer.iter.len(); if remaining == 0 { Ok(seq) } else { Err(..) }` not found")
+        lines.append("def %s : String := \"%s\"" % (nm, m.group(1) if m else ""))
+    # numeric keys: accepted first bytes
+    mac = re.search(r"macro_rules!\s+deserialize_numeric_key\s*\{.*?\n\}", t, re.S)
+    g = re.search(r"match tri!\(de\.peek\(\)\) \{\s*Some\(([^)]*)\) => \{\}", mac.group(0) if mac else "")
+    if not g: miss("fromvalue.numeric_key_guard", "`match tri!(de.peek()) { Some(b'0'..=b'9' | b'-') => {}` not found")
+    lines.append("def numericKeyGuard : String := \"%s\"" % (g.group(1).replace('"', "'") if g else ""))
+    tail = re.search(r"if tri!\(de\.peek\(\)\)\.is_some\(\) \{\s*return Err", mac.group(0) if mac else "")
+    if not tail: miss("fromvalue.numeric_key_tail", "trailing-characters check of deserialize_numeric_key! not found")
+
+
+GENERATORS.append(("FromValue", gen_fromvalue))
+
+
+# ------------------------------------------------------------------ value/index.rs, Value::take (C18)
+def value_code(expr):
+    """constructor code of a simple `Value` expression (see Model.ValueIndex.valueOfCode)"""
+    e = re.sub(r"\s+", "", expr or "")
+    return {"Value::Null": 0, "Value::Bool(false)": 1, "Value::Bool(true)": 2}.get(e)
+
+
+def gen_index(lines):
+    t = src("value/index.rs")
+    m = re.search(r"impl<I>\s+ops::Index<I>\s+for\s+Value\b.*?fn index\(&self, index: I\) -> &Value\s*\{(.*?)\n    \}", t, re.S)
+    body = m.group(1) if m else ""
+    st = re.search(r"static\s+(\w+)\s*:\s*Value\s*=\s*([^;]+);", body)
+    use = re.search(r"index\.index_into\(self\)\.unwrap_or\(&(\w+)\)", body)
+    code = value_code(st.group(2)) if st and use and use.group(1) == st.group(1) else None
+    if code is None: miss("index.miss", "`static NULL: Value = Value::Null; index.index_into(self).unwrap_or(&NULL)` not found in ops::Index::index")
+    lines.append("/-- what `&value[probe]` yields on a miss (`static NULL` of `ops::Index::index`), as a constructor code -/")
+    lines.append("def indexMissCode : Nat := %d" % (255 if code is None else code))
+    blk = fn_body(t, r"impl Index for str\s*\{") or ""
+    body = fn_body(blk, r"fn index_or_insert<'v>\([^{]*\{") or ""
+    flat = re.sub(r"\s+", " ", body)
+    nb = re.search(r"if let Value::Null = v \{ \*v = Value::Object\(Map::new\(\)\); \}", flat)
+    oi = re.search(r"Value::Object\(map\) => map\.entry\(self\.to_owned\(\)\)\.or_insert\(([^)]*(?:\([^)]*\))?)\)", flat)
+    if not oi: miss("index.or_insert", "`Value::Object(map) => map.entry(self.to_owned()).or_insert(Value::Null)` not found in `impl Index for str`")
+    code = value_code(oi.group(1)) if oi else None
+    if oi and code is None: miss("index.or_insert_value", "or_insert argument `%s` is not a simple Value constructor" % oi.group(1))
+    lines.append("/-- `impl Index for str`, `index_or_insert`: is `Null` first replaced by an empty object? -/")
+    lines.append("def nullBecomesObject : Bool := %s" % ("true" if nb else "false"))
+    lines.append("/-- … and the value `or_insert` gives a vacant entry, as a constructor code -/")
+    lines.append("def orInsertCode : Nat := %d" % (255 if code is None else code))
+    tm = src("value/mod.rs")
+    body = fn_body(tm, r"pub fn take\(&mut self\) -> Value\s*\{") or ""
+    rp = re.search(r"mem::replace\(\s*self\s*,\s*(.*?)\s*\)\s*\}?\s*$", re.sub(r"\s+", " ", body).strip())
+    code = value_code(rp.group(1)) if rp else None
+    if code is None: miss("index.take", "`mem::replace(self, <simple Value constructor>)` not found in Value::take")
+    lines.append("/-- what `Value::take` leaves behind (second argument of `mem::replace`), as a constructor code -/")
+    lines.append("def takeReplacementCode : Nat := %d" % (255 if code is None else code))
+
+
+GENERATORS.append(("Index", gen_index))
+
+
+# ------------------------------------------------------------------ value/partial_eq.rs (C18)
+def gen_partial_eq(lines):
+    t = src("value/partial_eq.rs")
+    fns = []
+    for m in re.finditer(r"fn (eq_\w+)\(value: &Value, other: ([^)]+)\) -> bool\s*\{", t):
+        body = fn_body(t[m.start():], r"fn eq_\w+\([^{]*\{") or ""
+        acc = re.search(r"\b(\w+)\.(as_\w+)\(\)\s*==\s*Some\(other\)", body)
+        if not acc: miss("partial_eq." + m.group(1), "`<recv>.as_*() == Some(other)` not found"); continue
+        fns.append((m.group(1), m.group(2).strip().lstrip("&"), acc.group(2)))
+    if not fns: miss("partial_eq.fns", "no `fn eq_*(value: &Value, other: T) -> bool` found")
+    inv = re.search(r"partialeq_numeric!\s*\{(.*?)\n\}", t, re.S)
+    rows = re.findall(r"(\w+)\s*\[([^\]]*)\]", inv.group(1)) if inv else []
+    if not rows: miss("partial_eq.table", "invocation `partialeq_numeric! { eq_x[ty ...] ... }` not found")
+    mac = re.search(r"macro_rules!\s+partialeq_numeric\s*\{.*?\n\}", t, re.S)
+    calls = re.findall(r"\$eq\(([^;{}]*)\)\s*\}", re.sub(r"\s+", " ", mac.group(0))) if mac else []
+    casts = [bool(re.fullmatch(r"\*?\*?\w+, \*\w+ as _", c.strip())) for c in calls]
+    if not calls or not all(casts): miss("partial_eq.cast", "the impls of partialeq_numeric! no longer all call `$eq(x, *y as _)`")
+    tys = [ty for _, r in rows for ty in r.split()]
+    fnames = [f for f, _, _ in fns]
+    for f, _ in rows:
+        if f not in fnames: miss("partial_eq.row." + f, "row names an unknown comparison function"); fnames.append(f)
+    params = sorted({p for _, p, _ in fns}) or ["i64"]
+    accs = sorted({a for _, _, a in fns}) or ["as_i64"]
+    lines.append("/-- every Rust type named in the `partialeq_numeric!` invocation, in source order -/")
+    lines.append("inductive PrimTy where")
+    for ty in tys or ["i64"]: lines.append("  | " + ty)
+    lines.append("deriving DecidableEq, Repr")
+    lines.append("")
+    lines.append("/-- the comparison functions `fn eq_*(value: &Value, other: T) -> bool` -/")
+    lines.append("inductive EqFn where")
+    for f in fnames or ["eq_i64"]: lines.append("  | " + f)
+    lines.append("deriving DecidableEq, Repr")
+    lines.append("")
+    lines.append("/-- the type of their second parameter -/")
+    lines.append("inductive EqParam where")
+    for p in params: lines.append("  | " + p)
+    lines.append("deriving DecidableEq, Repr")
+    lines.append("")
+    lines.append("/-- the accessor in `<recv>.as_*() == Some(other)` -/")
+    lines.append("inductive EqAccessor where")
+    for a in accs: lines.append("  | " + a)
+    lines.append("deriving DecidableEq, Repr")
+    lines.append("")
+    lines.append("/-- `partialeq_numeric! { eq_x[ty ...] ... }`: the row of each type -/")
+    lines.append("def eqFnOf : PrimTy → EqFn")
+    for f, r in rows:
+        for ty in r.split(): lines.append("  | .%s => .%s" % (ty, f))
+    lines.append("")
+    lines.append("def eqFnParam : EqFn → EqParam")
+    d = {f: (p, a) for f, p, a in fns}
+    for f in fnames: lines.append("  | .%s => .%s" % (f, d.get(f, (params[0], accs[0]))[0]))
+    lines.append("")
+    lines.append("def eqFnAccessor : EqFn → EqAccessor")
+    for f in fnames: lines.append("  | .%s => .%s" % (f, d.get(f, (params[0], accs[0]))[1]))
+    lines.append("")
+    lines.append("/-- every impl generated by the macro passes the comparand as `*other as _` (a cast to the parameter type) -/")
+    lines.append("def eqCastIsAs : Bool := %s" % ("true" if calls and all(casts) else "false"))
+    lines.append("def primTys : List PrimTy := [%s]" % ", ".join("." + ty for ty in tys))
+
+
+GENERATORS.append(("PartialEq", gen_partial_eq))
+
+
+# ------------------------------------------------------------------ macros.rs json_internal! (C18)
+def macro_rules_of(text, name):
+    """[(pattern, body)] of `macro_rules! name { (pat) => {body}; ... }`, comments removed, whitespace normalised"""
+    m = re.search(r"macro_rules!\s+%s\s*\{" % re.escape(name), text)
+    if not m: return None
+    t = re.sub(r"//[^\n]*", "", text[m.end():])
+    close = {"(": ")", "[": "]", "{": "}"}
+
+    def group(i):
+        """t[i] opens a group; index just after its closing delimiter"""
+        stack = [close[t[i]]]; i += 1
+        while stack:
+            c = t[i]
+            if c in close: stack.append(close[c])
+            elif c == stack[-1]: stack.pop()
+            i += 1
+        return i
+
+    rules, i = [], 0
+    while True:
+        while i < len(t) and t[i].isspace(): i += 1
+        if i >= len(t) or t[i] == "}": break
+        if t[i] not in close: return None
+        j = group(i)
+        pat = t[i + 1:j - 1]
+        k = t.index("=>", j) + 2
+        while t[k].isspace(): k += 1
+        e = group(k)
+        body = t[k + 1:e - 1]
+        rules.append((" ".join(pat.split()), " ".join(body.split())))
+        i = e
+        while i < len(t) and (t[i].isspace() or t[i] == ";"): i += 1
+    return rules
+
+
+def lean_str(s):
+    return '"' + s.replace("\\", "\\\\").replace('"', '\\"') + '"'
+
+
+def gen_json_macro(lines):
+    t = src("macros.rs")
+    rules = macro_rules_of(t, "json_internal")
+    if not rules: miss("jsonmacro.rules", "macro_rules! json_internal not found / not parsed"); rules = []
+    lines.append("/-- rule heads (matchers) of `json_internal!`, in source order, whitespace-normalised -/")
+    lines.append("def jsonRules : List String := [")
+    lines.append(",\n".join("  " + lean_str(p) for p, _ in rules))
+    lines.append("]")
+    ins = [b for p, b in rules if p.startswith("@object $object:ident [$($key:tt)+] ($value:expr)") and "json_unexpected" not in b]
+    stmts = [b.split(";")[0].strip() + ";" for b in ins]
+    over = [s == "let _ = $object.insert(($($key)+).into(), $value);" for s in stmts]
+    keep = [bool(re.fullmatch(r"(let _ = )?\$object\.entry\(\(?\$\(\$key\)\+\)?(\.into\(\))?\)\.or_insert\(\$value\);", s)) for s in stmts]
+    if len(stmts) != 2 or not (all(over) or all(keep)):
+        miss("jsonmacro.insert", "the two entry rules `(@object $object:ident [$($key:tt)+] ($value:expr) …)` no longer both start with "
+                                 "`let _ = $object.insert(($($key)+).into(), $value);` (or both with `$object.entry(..).or_insert($value);`)")
+    lines.append("/-- first statement of the two rules that add an entry -/")
+    lines.append("def jsonInsertStmts : List String := [%s]" % ", ".join(lean_str(s) for s in stmts))
+    lines.append("/-- `true`: `Map::insert` (a later duplicate key overwrites); `false`: `entry(..).or_insert(..)` (the first one stays) -/")
+    lines.append("def jsonInsertOverwrites : Bool := %s" % ("true" if stmts and all(over) else "false"))
+    lines.append("/-- the transcribers (right-hand sides) of the same rules, whitespace-normalised -/")
+    lines.append("def jsonRuleBodies : List String := [")
+    lines.append(",\n".join("  " + lean_str(b) for _, b in rules))
+    lines.append("]")
+
+
+GENERATORS.append(("JsonMacro", gen_json_macro))
 
 
 # ------------------------------------------------------------------ lexical/* (C07)
